@@ -253,6 +253,39 @@ def rebuild (cd : Codec) (C : Nat) (present : List (Option (List Nat))) : Option
   let maxLen := present.foldl (fun a o => max a (o.map List.length |>.getD 0)) 0
   rebuildLoop cd C present (maxLen + 1) 0 0 (present.map fun _ => [])
 
+/-! ### the rebuilder's chunk loop at LENGTH level
+
+For shards far above the chunk size `C` (the driver cannot hold megabytes as lists) the loop is followed
+on the shard LENGTHS only: `lens[i] = some len` for a present shard file, `none` for a lost one.  The byte
+content of every chunk is `reconChunk`'s (theorems `ec_rebuild*`); what the loop adds is which chunks
+are read, reconstructed and written, and when it stops or fails. -/
+
+/-- `rebuildReads` on lengths -/
+def rebuildReadsLen (C start : Nat) : List (Option Nat) → Nat → ReadRes
+  | [], ibds => .ok ibds
+  | none :: rest, ibds => rebuildReadsLen C start rest ibds
+  | some len :: rest, ibds =>
+    let n := min C (len - start)
+    if n = 0 then .stop else
+    let ibds' := if ibds = 0 then n else ibds
+    if ibds' ≠ n then .err else rebuildReadsLen C start rest ibds'
+
+/-- the main loop on lengths: number of bytes written to every regenerated shard, `none` = error
+    (size mismatch between chunks, or Reconstruct with fewer than `k` shards present) -/
+def rebuildLenLoop (k C : Nat) (lens : List (Option Nat)) : Nat → Nat → Nat → Option Nat
+  | 0, start, _ => some start
+  | fuel + 1, start, ibds =>
+    match rebuildReadsLen C start lens ibds with
+    | .stop => some start
+    | .err => none
+    | .ok ibds' =>
+      if (lens.filter Option.isSome).length < k then none
+      else rebuildLenLoop k C lens fuel (start + ibds') ibds'
+
+def rebuildLen (k C : Nat) (lens : List (Option Nat)) : Option Nat :=
+  let maxLen := lens.foldl (fun a o => max a (o.getD 0)) 0
+  rebuildLenLoop k C lens (maxLen + 1) 0 0
+
 /-! ### concrete GF(2^8) codec (polynomial 0x11D), for the driver -/
 
 def gfMulAux : Nat → Nat → Nat → Nat → Nat
